@@ -231,6 +231,12 @@ class FrameQueueFrag(FrameQueue):
                 ):
                     # print("dropping non sequential fragment")
                     return False
+                if (
+                    self._frags.header.reserved > 2
+                    and frame.header.message_type == MSG_FRAG_LAST
+                ):
+                    # print("dropping last fragment of an incomplete message")
+                    return False
                 self._frags.header.unpack(frame.header.pack())
                 self._frags.message += frame.message[:]
                 if frame.header.message_type == MSG_FRAG_LAST:
